@@ -366,6 +366,16 @@ func (sc *scenario) actor() string {
 	return "W"
 }
 
+// hookActor (caller holds mu): who emitted a sent / flushed / close hook.  In direct mode with the background worker
+// running, a hook called from process() is the WORKER touching the shared writer / connection on its own (it has no
+// pack to send in direct mode: the specification has no step for that while the writer is healthy).
+func (sc *scenario) hookActor() (a string, workerOnItsOwn bool) {
+	if sc.mode == "direct" && sc.worker && fromWorker() {
+		return "W", true
+	}
+	return sc.actor(), false
+}
+
 func (sc *scenario) specOf(p pack.Pack) *packSpec {
 	if tp, ok := p.(*pack.TextPack); ok {
 		return sc.packs[tp]
@@ -476,7 +486,10 @@ func (sc *scenario) hook(name string, args ...interface{}) {
 		sc.add(t, t, ce)
 	case "sent":
 		err := args[0] != nil
-		if !err {
+		a, own := sc.hookActor()
+		if own {
+			// not the send in progress: the sender's byte bookkeeping is left alone
+		} else if !err {
 			sc.accum += int64(sc.lastLen)
 			sc.lastLen = 0 // a frame counts once, whatever the client does after it
 		} else {
@@ -485,23 +498,34 @@ func (sc *scenario) hook(name string, args ...interface{}) {
 			atomic.StoreInt32(&sc.connected, 0)
 		}
 		tmo := err && isTimeout(args[0])
-		sc.add(t, t, core.Ev{"ev": "Sent", "a": sc.actor(), "err": err, "tmo": tmo, "early": tmo && sc.early()})
-		g = sc.gates[fmt.Sprintf("sent:%d", sc.curID)]
+		sc.add(t, t, core.Ev{"ev": "Sent", "a": a, "err": err, "tmo": tmo, "early": tmo && !own && sc.early()})
+		if !own {
+			g = sc.gates[fmt.Sprintf("sent:%d", sc.curID)]
+		}
 	case "flushed":
 		err := args[1] != nil
-		if !err {
+		a, own := sc.hookActor()
+		if own {
+			// the worker flushed the shared writer on its own (direct mode)
+		} else if !err {
 			atomic.AddInt64(&sc.bytesOK, sc.accum)
-		} else if sc.mode == "worker" {
-			atomic.StoreInt32(&sc.connected, 0) // as above: the worker closes after a failed flush
+			sc.accum = 0
+		} else {
+			if sc.mode == "worker" {
+				atomic.StoreInt32(&sc.connected, 0) // as above: the worker closes after a failed flush
+			}
+			sc.accum = 0
 		}
-		sc.accum = 0
 		tmo := err && isTimeout(args[1])
-		sc.add(t, t, core.Ev{"ev": "Flushed", "a": sc.actor(), "err": err, "tmo": tmo, "early": tmo && sc.early()})
-		atomic.StoreInt32(&sc.flushedID, int32(sc.curID))
-		atomic.AddInt32(&sc.processed, 1)
+		sc.add(t, t, core.Ev{"ev": "Flushed", "a": a, "err": err, "tmo": tmo, "early": tmo && !own && sc.early()})
+		if !own {
+			atomic.StoreInt32(&sc.flushedID, int32(sc.curID))
+			atomic.AddInt32(&sc.processed, 1)
+		}
 	case "close":
+		a, _ := sc.hookActor()
 		atomic.StoreInt32(&sc.connected, 0)
-		sc.add(t, t, core.Ev{"ev": "Close", "a": sc.actor()})
+		sc.add(t, t, core.Ev{"ev": "Close", "a": a})
 	case "dequeued":
 		ps := sc.specOf(args[0].(*wnet.TcpSend).Pack)
 		sc.add(t, t, core.Ev{"ev": "Deq", "id": ps.id})
@@ -868,6 +892,7 @@ func (sc *scenario) serversBack() { sc.reconf("field", sc.curLic, sc.curCap, tru
 type colConf struct {
 	cuts   map[int]cutSpec
 	stalls map[int]*stallSpec
+	rcvbuf int
 }
 
 type scConf struct {
@@ -895,6 +920,7 @@ func newScenario(gen string, cas int, r *rand.Rand, cf scConf) (*scenario, error
 		if err == nil {
 			col.name = string(rune('A' + i))
 			col.stalls = cc.stalls
+			col.rcvbuf = cc.rcvbuf
 			i := i
 			col.dialed = func(k int) bool { return int(atomic.LoadInt32(&sc.nAt[i])) > k }
 			sc.cols = append(sc.cols, col)
